@@ -280,7 +280,7 @@ def runCase (c : CaseData) (st : Stats) : IO Stats := do
   let mut st := { st with cases := st.cases + 1 }
   let hd := c.header
   for kv in hd.splitOn " " do
-    if kv.startsWith "reset=" || kv.startsWith "trig=" || kv.startsWith "mode=" || kv.startsWith "style=" || kv.startsWith "areas=" || kv.startsWith "extra=" || kv.startsWith "undef=" || kv.startsWith "rundef=" || kv.startsWith "pon=" || kv.startsWith "tri=" then
+    if kv.startsWith "reset=" || kv.startsWith "trig=" || kv.startsWith "mode=" || kv.startsWith "style=" || kv.startsWith "areas=" || kv.startsWith "extra=" || kv.startsWith "undef=" || kv.startsWith "rundef=" || kv.startsWith "pon=" || kv.startsWith "freq=" || kv.startsWith "ebe=" || kv.startsWith "tri=" then
       st := st.bump ("opt:" ++ kv)
   let diff := fun (st : Stats) (what msg : String) => do
     IO.println s!"DIFF case={c.id} what={what} {hd} :: {short msg}"
@@ -349,7 +349,7 @@ def runCase (c : CaseData) (st : Stats) : IO Stats := do
         else if r.fails.any (fun x => x.got.contains 'U') then "check_mismatch_uninitialised"
         else "check_mismatch_metavalue"
       let f := if what == "check_mismatch_value" then (r.fails.find? (·.hard)).getD f else f
-      return ← pfail st what s!"vector_line={f.line} signal={f.sig} expected={f.expected} got={f.got} time_fs={f.timeFs} failing_checks={r.fails.length} of {r.checks} vhdl_has_metavalue={if r.metaPresent then 1 else 0}"
+      return ← pfail st what s!"vector_line={f.line} signal={f.sig} time_fs={f.timeFs} failing_checks={r.fails.length} of {r.checks} vhdl_has_metavalue={if r.metaPresent then 1 else 0} expected={f.expected} got={f.got}"
 
 def stripPayload (l : String) : String := if l.startsWith "| " then (l.drop 2).toString else if l == "|" then "" else l
 
